@@ -19,7 +19,9 @@ META = {
     "explanation": "bounded symbolic verification (Engine Z) of the pre-check only: balance_stoichiometry runs on substances whose composition "
                    "entries are symbolic; on every path ending in 'Component ... not among reactants/products' z3 proves that "
                    "A*x = 0 has no solution with all x >= 1 (so refusing is justified: 'when no assignment of positive coefficients balances "
-                   "the species as placed, a ValueError is raised' is never triggered wrongly by this mechanism)",
+                   "the species as placed, a ValueError is raised' is never triggered wrongly by this mechanism); on every path that reaches "
+                   "the solver, the matrix handed to it is proved to be the FULL signed composition matrix (one row per element and one for the "
+                   "net charge, reactant columns negated) - the precondition for 'every composition key sums to the same total on both sides'",
     "bounds": {"quick": "r reactants x p products x c composition keys with r+p <= 4, c <= 3 (charge + 2 elements); element counts in [0,3], "
                         "charge in [-2,2] (real-valued superset)",
                "thorough": "r+p <= 6 (c = 2) / r+p <= 5 (c = 3)"},
@@ -35,7 +37,9 @@ META = {
 
 
 class Reached(Exception):
-    pass
+    def __init__(self, rows=None):
+        Exception.__init__(self, "matrix construction reached")
+        self.rows = rows
 
 
 REPLAY = '''
@@ -56,6 +60,33 @@ except ValueError as e:
     refused = str(e)
 print("positive balancing vector", xs, "residuals", res, "refused:", refused)
 sys.exit(1 if (feasible and refused and "not among" in refused) else 0)
+'''
+
+
+REPLAY_MATRIX = '''
+import sympy
+from chempy import Substance, balance_stoichiometry
+comps = %(comps)s
+nr = %(nr)d
+names = ["S%%d" %% i for i in range(len(comps))]
+subs = {n: Substance(n, composition={k: v for k, v in c.items()}) for n, c in zip(names, comps)}
+keys = sorted(set().union(*[set(c) for c in comps]))
+seen = []
+real = sympy.MutableDenseMatrix
+class Spy(real):
+    def __new__(cls, *a, **k):
+        if not seen: seen.append([list(row) for row in a[0]])
+        return real.__new__(real, *a, **k)
+sympy.MutableDenseMatrix = Spy
+try:
+    balance_stoichiometry(set(names[:nr]), set(names[nr:]), substances=subs, underdetermined=True)
+except Exception as e:
+    print("raised", repr(e))
+finally:
+    sympy.MutableDenseMatrix = real
+exp = [[(-1 if i < nr else 1) * comps[i].get(k, 0) for i in range(len(comps))] for k in keys]
+print("matrix", seen[0] if seen else None, "expected", exp)
+sys.exit(1 if (seen and seen[0] != exp) else 0)
 '''
 
 
@@ -85,7 +116,7 @@ def task_shape(r, p, c):
 
         class Sentinel(object):
             def __init__(self, *a, **k):
-                raise Reached()
+                raise Reached(a[0] if a else None)
 
         sympy.MutableDenseMatrix = Sentinel
         try:
@@ -95,7 +126,14 @@ def task_shape(r, p, c):
 
     def goal(p_, twin=False):
         if p_.kind == "exc" and isinstance(p_.value, Reached):
-            return None
+            # the linear system handed to the solver is the FULL signed composition matrix: one row per composition key (every element
+            # and the net charge), reactant columns negated, columns in the order reactants (sorted) then products (sorted)
+            rows = p_.value.rows
+            if twin:
+                return None
+            if rows is None or len(rows) != len(keys) or any(len(row) != n for row in rows):
+                return False
+            return z3.And(*[eq_term(rows[ki][i], (-1 if i < r else 1) * comps[i][k]) for ki, k in enumerate(sorted(keys)) for i in range(n)])
         if p_.kind == "exc" and isinstance(p_.value, ValueError) and "not among" in str(p_.value):
             if twin:
                 return False
@@ -114,6 +152,10 @@ def task_shape(r, p, c):
     for pth, m, g in o.failed[:1]:
         cc = [concretize(m, d) for d in comps]
         xv = concretize(m, xs)
+        if isinstance(pth.value, Reached):
+            res["violations"].append(dict(key="matrix", desc="compositions %s (first %d are reactants): matrix handed to the solver is %s" % (cc, r, pth.value.rows),
+                                          replay_src=REPLAY_MATRIX % dict(comps=pyrepr(cc), nr=r)))
+            continue
         res["violations"].append(dict(key="precheck:%s" % pth.kind, soft=wrapper_exc(pth.value),
                                       desc="compositions %s (first %d are reactants): %r although x=%s balances" % (cc, r, pth.value, xv),
                                       replay_src=REPLAY % dict(comps=pyrepr(cc), nr=r, xs=pyrepr(xv))))
